@@ -8,7 +8,7 @@ import tempfile
 from decimal import Decimal
 
 from engine import SPEC, gen_states, pool_map
-from readers import read_out, join_lines, run_cli, write_text, workdir
+from readers import zname, read_out, join_lines, run_cli, write_text, workdir
 
 POOL = json.load(open(os.path.join(SPEC, "data", "stat_pool.json")))
 DENS = [1, 2, 4, 5, 8, 10, 16, 20, 25, 40, 50, 80, 100, 125, 200, 250, 400, 500]
@@ -68,7 +68,7 @@ def run_case(job):
     _rd.CASE = str(cid)
     d = workdir("stat_", cid)
     try:
-        gaf = os.path.join(d, "a.gaf" + (".gz" if storage == "bgzf" else ""))
+        gaf = os.path.join(d, zname("a.gaf", cid) if storage == "bgzf" else "a.gaf")
         write_text(gaf, join_lines([gaf_line(r, k) for k, r in enumerate(recs)], cid), storage, block=200)
         out = os.path.join(d, "report.txt")
         r = run_cli(["stat", gaf, "-o", out] + (["--cigar"] if cigar else []))
